@@ -126,7 +126,7 @@ void h_update(void){
 void h_setters(void){
   ParticleSwarmState st, old;
   size_t a_np = nondet_size_t(), a_nd = nondet_size_t(); int a_which = nondet_int();
-  __CPROVER_assume(a_np >= 1 && a_np <= TSG_NP && a_nd >= 1 && a_nd <= TSG_NDIM && a_which >= 0 && a_which <= 5);
+  __CPROVER_assume(a_np >= 1 && a_np <= TSG_NP && a_nd >= 1 && a_nd <= TSG_NDIM && a_which >= 0 && a_which <= 7);
   st.num_particles = (int) a_np; st.num_dimensions = (int) a_nd;
   st.positions_initialized = nondet_bool(); st.velocities_initialized = nondet_bool(); st.best_positions_initialized = nondet_bool(); st.cache_initialized = nondet_bool();
   for (size_t i = 0; i < TSG_NP1; i++) {
@@ -143,14 +143,16 @@ void h_setters(void){
     case 1: ps_setParticlePositions_vec(&st, arg, a_np * a_nd); break;
     case 2: ps_setBestParticlePositions_ptr(&st, arg); break;
     case 3: ps_setBestParticlePositions_vec(&st, arg, (a_np + 1) * a_nd); break;
+    case 6: ps_setParticlePositions_mv(&st, arg, a_np * a_nd); break;
+    case 7: ps_setBestParticlePositions_mv(&st, arg, (a_np + 1) * a_nd); break;
     case 4: ps_clearBestParticles(&st); break;
     default: ps_clearCache(&st); break;
   }
   __CPROVER_assert(tsg_exc == 0, "F20b a correctly sized argument is accepted");
   /* what a setter stores: every coordinate of every particle; the best positions have one more strip, the swarm best */
   { size_t a_k = nondet_size_t();
-    if (a_which <= 1) { __CPROVER_assume(a_k < a_np * a_nd); __CPROVER_assert(TSG_SAME(st.particle_positions[a_k], arg[a_k]) && st.positions_initialized, "F20b setParticlePositions stores all num_particles x num_dimensions coordinates"); }
-    else if (a_which <= 3) { __CPROVER_assume(a_k < (a_np + 1) * a_nd); __CPROVER_assert(TSG_SAME(st.best_particle_positions[a_k], arg[a_k]) && st.best_positions_initialized, "F20b setBestParticlePositions stores all (num_particles + 1) x num_dimensions coordinates, the swarm-best strip included"); } }
+    if (a_which <= 1 || a_which == 6) { __CPROVER_assume(a_k < a_np * a_nd); __CPROVER_assert(TSG_SAME(st.particle_positions[a_k], arg[a_k]) && st.positions_initialized, "F20b setParticlePositions stores all num_particles x num_dimensions coordinates"); }
+    else if (a_which <= 3 || a_which == 7) { __CPROVER_assume(a_k < (a_np + 1) * a_nd); __CPROVER_assert(TSG_SAME(st.best_particle_positions[a_k], arg[a_k]) && st.best_positions_initialized, "F20b setBestParticlePositions stores all (num_particles + 1) x num_dimensions coordinates, the swarm-best strip included"); } }
   /* cache coherence: a cached value that is still trusted (cache_initialized and, for best slots, inside)
    * must belong to the position that is stored now */
   if (st.cache_initialized) {
@@ -158,6 +160,11 @@ void h_setters(void){
       bool moved = false;
       for (size_t d = 0; d < TSG_NDIM; d++) if (d < a_nd && !TSG_SAME(st.best_particle_positions[i * a_nd + d], old.best_particle_positions[i * a_nd + d])) moved = true;
       __CPROVER_assert(!moved, "F20b a best-known slot that stays flagged inside keeps the position its cached value belongs to");
+    }
+    for (size_t i = 0; i < TSG_NP; i++) if (i < a_np) {
+      bool moved = false;
+      for (size_t d = 0; d < TSG_NDIM; d++) if (d < a_nd && !TSG_SAME(st.particle_positions[i * a_nd + d], old.particle_positions[i * a_nd + d])) moved = true;
+      __CPROVER_assert(!moved, "F20b a particle whose cached value is still trusted (cache_initialized) keeps the position that value belongs to");
     }
   }
   __CPROVER_assert(0, "VACUITY-CANARY");
@@ -167,13 +174,16 @@ void h_setters(void){
 /* main body: the lambdas are stubs.  f_constrained rewrites the cache it is given; update() may create or improve best-known entries, in particular it may
  * turn the swarm-best flag on (never off).  The random source is logged. */
 int g_draws, g_draws_iter; bool g_flag_at_begin; int g_iter_begun;
+bool g_valid[TSG_NP1];      /* ghost: best-known strip i holds a point written by update() (a visited in-domain point) or supplied by the user; strips never written hold zeros */
 double cb_get_random01(void){ g_draws++; g_draws_iter++; return nondet_double(); }
 void stub_f_constrained(ParticleSwarmState *s, int which){
   if (which == 0) for (size_t i = 0; i < TSG_NP; i++) { s->cache_particle_fvals[i] = nondet_double(); s->cache_particle_inside[i] = nondet_bool(); }
-  else for (size_t i = 0; i < TSG_NP1; i++) { s->cache_best_particle_fvals[i] = nondet_double(); s->cache_best_particle_inside[i] = nondet_bool(); }
+  else for (size_t i = 0; i < TSG_NP1; i++) {
+    if (i <= (size_t) s->num_particles) __CPROVER_assert(g_valid[i], "C20 F21c the cache rebuild evaluates the objective only at best-known strips that hold a visited (or user-supplied) point, never at a strip that was never written");
+    s->cache_best_particle_fvals[i] = nondet_double(); s->cache_best_particle_inside[i] = nondet_bool(); }
 }
 void stub_update(ParticleSwarmState *s, size_t np){
-  for (size_t i = 0; i < TSG_NP1; i++) if (i <= np && !s->cache_best_particle_inside[i] && nondet_bool()) s->cache_best_particle_inside[i] = true;
+  for (size_t i = 0; i < TSG_NP1; i++) if (i <= np && !s->cache_best_particle_inside[i] && nondet_bool()) { s->cache_best_particle_inside[i] = true; g_valid[i] = true; }
 }
 static void check_draws(const ParticleSwarmState *s, size_t np){
   if (g_iter_begun > 0)
@@ -192,7 +202,10 @@ void h_main(void){
   __CPROVER_assume(a_np >= 1 && a_np <= TSG_NP && a_nd >= 1 && a_nd <= TSG_NDIM && a_iter <= TSG_NIT);
   st.num_particles = (int) a_np; st.num_dimensions = (int) a_nd;
   st.positions_initialized = true; st.velocities_initialized = true; st.best_positions_initialized = nondet_bool(); st.cache_initialized = nondet_bool();
-  for (size_t i = 0; i < TSG_NP1; i++) { st.cache_best_particle_inside[i] = nondet_bool(); if (i < TSG_NP) st.cache_particle_inside[i] = nondet_bool(); }
+  for (size_t i = 0; i < TSG_NP1; i++) { st.cache_best_particle_inside[i] = nondet_bool(); if (i < TSG_NP) st.cache_particle_inside[i] = nondet_bool();
+    g_valid[i] = nondet_bool();
+    /* invariant of the state: a best-known slot flagged inside holds a point; after clearCache() the flags are gone but the strips are what they were */
+    __CPROVER_assume(!(st.cache_initialized && st.cache_best_particle_inside[i]) || g_valid[i]); }
   g_draws = 0; g_draws_iter = 0; g_iter_begun = 0;
   ParticleSwarm_main(a_iter, nondet_double(), nondet_double(), nondet_double(), &st);
   check_draws(&st, a_np);
